@@ -20,6 +20,7 @@ struct GenOpts {
     int maxM = 1000000;
     bool allow_trivial = true;   // n=0, forests ...
     int tie_bias = 60;           // percent of cases using small palettes
+    bool sparse_labels = true;   // allow the "sparse labels" decoration (n grows to 65..140 with mostly isolated vertices)
     bool dense_ok = true;
 };
 
@@ -198,6 +199,7 @@ inline std::vector<double> gen_weights(int m, WDom dom, int tie_bias, bool int_s
     else { static const int dp[] = {3, 4, 5, 6, 7, 9, 9, 10, 10, 11, 11}; pal = dp[pick(0, 10)]; }
     if (!int_safe && pal <= 2 && coin(8)) pal = 9;   // tie-heavy and tiny at once
     if (pal == 10 && m > 64) pal = 9;                // the fine-grained palette is only exactly summable on small graphs
+    if (pal == 10 && m <= 12 && coin(50)) pal = 12;  // relative granularity 2^-47: only tiny graphs keep every sum exact
     for (int i = 0; i < m; i++) {
         double x = 1;
         switch (pal) {
@@ -211,6 +213,7 @@ inline std::vector<double> gen_weights(int m, WDom dom, int tie_bias, bool int_s
             case 7: x = (double) pick(1, 1 << 30); break;
             case 8: x = pick(1, 4); break;
             case 11: { static const int fib[] = {1, 2, 3, 5, 8, 13, 21, 34, 55}; x = fib[pick(0, 8)]; break; }   // wide range, few ties, many equal sums
+            case 12: x = std::ldexp((double) pick(1, 2), -2) + std::ldexp((double) pick(0, 3), -48); break;   // {1/4,1/2} + j*2^-48
             case 9: x = std::ldexp((double) pick(1, 3), -60); break;                        // uniformly tiny, still exactly summable
             case 10: x = std::ldexp((double) pick(1, 2), -16) + std::ldexp((double) pick(0, 3), -52); break;  // differences of one ulp of 1.0; all sums stay < 1 and exact (m <= 64)
         }
@@ -240,6 +243,34 @@ inline void permute_spec(GraphSpec &g) {
     g = h;
 }
 
+// decoration "sparse labels": put a small graph onto vertex labels spread over 65..140 vertices, with labels biased to collide
+// modulo 32 / 64 (index arithmetic: bit masks, word offsets); the other vertices stay isolated or form one pendant path
+inline void sparse_relabel(GraphSpec &g) {
+    int N = pick(65, 140);
+    std::set<int> used;
+    std::vector<int> lab(g.n);
+    int base = pick(0, 31);
+    for (int v = 0; v < g.n; v++) {
+        int l = -1;
+        for (int tries = 0; tries < 50 && l < 0; tries++) {
+            int c;
+            if (coin(50)) c = (base + pick(0, 2)) % 32 + 32 * pick(0, (N - 1) / 32);
+            else c = pick(0, N - 1);
+            if (c < N && !used.count(c)) l = c;
+        }
+        if (l < 0) for (int c = 0; c < N; c++) if (!used.count(c)) { l = c; break; }
+        used.insert(l);
+        lab[v] = l;
+    }
+    for (auto &e : g.edges) { e[0] = lab[e[0]]; e[1] = lab[e[1]]; }
+    g.n = N;
+    if (coin(30)) {   // one pendant path through all the filler vertices, hanging off a core vertex
+        double w = g.w.empty() ? 1.0 : g.w[0];
+        int prev = lab[0];
+        for (int c = 0; c < N; c++) if (!used.count(c)) { g.edges.push_back({prev, c}); g.w.push_back(w); prev = c; }
+    }
+}
+
 // profile "gnp-wide" (env VERIF_PROFILE): moderate-size random graphs G(n,p) with wide, tie-poor integer weights -
 // the class in which pruning limits, hidden-edge bookkeeping and sorted-candidate shortcuts of the exact algorithms matter
 inline GraphSpec gen_gnp_wide(const GenOpts &o, WDom dom) {
@@ -258,10 +289,28 @@ inline GraphSpec gen_gnp_wide(const GenOpts &o, WDom dom) {
     return g;
 }
 
+// profile "dense": near-complete graphs of moderate size with small non-uniform weights (thousands of candidate cycles,
+// supports with dozens of entries)
+inline GraphSpec gen_dense(const GenOpts &o, WDom dom) {
+    GraphSpec g;
+    g.n = pick(std::max(4, o.maxN * 2 / 3), o.maxN);
+    static const int ps[] = {70, 85, 100};
+    int p = ps[pick(0, 2)];
+    for (int i = 0; i < g.n; i++) for (int j = i + 1; j < g.n; j++) if (coin(p) && g.m() < o.maxM) g.edges.push_back({i, j});
+    int wmax = coin(30) ? 1 : (coin(50) ? 5 : 40);
+    for (int i = 0; i < g.m(); i++) g.w.push_back((double) pick(1, wmax));
+    (void) dom;
+    if (coin(50)) permute_spec(g);
+    return g;
+}
+
 inline GraphSpec gen_graph_raw(const GenOpts &o, WDom dom) {
     {
         static const char *prof = getenv("VERIF_PROFILE");
-        if (prof && std::string(prof) == "gnp-wide" && (dom == WDom::Exact || dom == WDom::ExactInt)) return gen_gnp_wide(o, dom);
+        if (prof && (dom == WDom::Exact || dom == WDom::ExactInt)) {
+            if (std::string(prof) == "gnp-wide") return gen_gnp_wide(o, dom);
+            if (std::string(prof) == "dense") return gen_dense(o, dom);
+        }
     }
     ShapeBuilder sb;
     int total_n;
@@ -323,6 +372,7 @@ inline GraphSpec gen_graph_raw(const GenOpts &o, WDom dom) {
             for (int i = 0; i < g.m(); i++) if (sb.pref[i] > 0) g.w[i] = sb.pref[i];   // shape-specific weights where the shape defines them
     }
     if (coin(60)) permute_spec(g);
+    if (o.sparse_labels && g.n >= 3 && g.n <= 14 && coin(7)) sparse_relabel(g);
     return g;
 }
 
